@@ -744,6 +744,10 @@ mod verif {
         Timeout,
     }
 
+    pub fn controlled() -> bool {
+        std::env::var_os("TS_VERIF_CTL").is_some()
+    }
+
     pub fn point(name: &str) -> Answer {
         let Ok(prefix) = std::env::var("TS_VERIF_CTL") else {
             return Answer::Go;
@@ -802,6 +806,13 @@ impl LockFile {
         verif::point("lock:lost");
         let mut sleep_ms = 100;
         let deadline = Instant::now() + timeout;
+        // Under a scheduler the timeout is one of the scheduler's answers; the wall clock must not add a second one.
+        #[cfg(tree_sitter_verif)]
+        let deadline = if verif::controlled() {
+            Instant::now() + Duration::from_secs(24 * 60 * 60)
+        } else {
+            deadline
+        };
         while path.exists() {
             #[cfg(tree_sitter_verif)]
             if verif::point("poll") == verif::Answer::Timeout {
